@@ -652,106 +652,6 @@ func (w *World) ruleStreamingPersist(r *Report, rule string) {
 	r.floor(rule+" (buffered readers)", m, 1)
 }
 
-// ---- payload units (R2, C09.R1 read side) ----
-
-func (w *World) rulePayloadUnits(r *Report, rule string) {
-	for _, cn := range []string{"string", "binary"} {
-		c := w.codecs()[cn]
-		if c == nil || c.Dec == nil {
-			r.undecided(rule, cn+" decoder", "-", "not found")
-			continue
-		}
-		want := "readRunes"
-		elem := "[]rune"
-		if cn == "binary" {
-			want, elem = "io.ReadFull", "[]byte"
-		}
-		found := false
-		for _, site := range w.callSitesIn(c.Dec) {
-			if site.callee != want {
-				continue
-			}
-			found = true
-			bt := typeStr(site.call.Call.Args[1].Type())
-			if bt == "[]int32" {
-				bt = "[]rune"
-			}
-			if bt == "[]uint8" {
-				bt = "[]byte"
-			}
-			// the buffer's length is the length read (first allocation)
-			r.add(rule, fmt.Sprintf("%s · payload read %s", fnName(c.Dec), site.key()), w.instrPos(site.call), bt == elem,
-				fmt.Sprintf("payload pulled by %s into a %s: one %s per counted unit", want, bt, map[string]string{"string": "character", "binary": "octet"}[cn]))
-		}
-		if !found {
-			r.add(rule, fnName(c.Dec)+" · payload read", w.pos(c.Dec.Pos()), false, "no "+want+" call: the payload is not read in "+elem+" units")
-		}
-	}
-	// readRunes itself: one ReadRune per element of the buffer
-	rr := w.fn("readRunes")
-	if rr == nil {
-		r.undecided(rule, "readRunes", "-", "anchor not found")
-		return
-	}
-	nCalls := 0
-	inLoop := false
-	loops := naturalLoops(rr)
-	for _, b := range rr.Blocks {
-		for _, in := range b.Instrs {
-			if c, ok := in.(*ssa.Call); ok && c.Call.IsInvoke() && c.Call.Method.Name() == "ReadRune" {
-				nCalls++
-				for _, lp := range loops {
-					if lp.body[b] {
-						inLoop = true
-					}
-				}
-			}
-		}
-	}
-	// loop bound is len(buf)
-	f := w.flow(rr)
-	boundOK := false
-	for _, b := range rr.Blocks {
-		if iff, ok := b.Instrs[len(b.Instrs)-1].(*ssa.If); ok {
-			if bo, ok := iff.Cond.(*ssa.BinOp); ok && bo.Op == token.LSS {
-				if f.term(bo.Y).Key() == "len(<p:buf>)" {
-					boundOK = true
-				}
-			}
-		}
-	}
-	r.add(rule, "readRunes · one ReadRune per buffer element", w.pos(rr.Pos()), nCalls == 1 && inLoop && boundOK, fmt.Sprintf("%d ReadRune call(s) inside the loop bounded by len(buf)=%v", nCalls, boundOK))
-	// the payload readers reject nothing but a failed read (every code point is content)
-	for _, name := range []string{"readRunes", "readBytes"} {
-		fn := w.fn(name)
-		if fn == nil {
-			continue
-		}
-		idx := errIndex(fn.Signature)
-		okAll, fact := true, "every error returned is the underlying reader's error"
-		for _, b := range fn.Blocks {
-			ret, isRet := b.Instrs[len(b.Instrs)-1].(*ssa.Return)
-			if !isRet || isNilConst(ret.Results[idx]) {
-				continue
-			}
-			ex, isEx := ret.Results[idx].(*ssa.Extract)
-			good := false
-			if isEx {
-				if c, isC := ex.Tuple.(*ssa.Call); isC {
-					if c.Call.IsInvoke() || (c.Call.StaticCallee() != nil && qualifiedFnName(c.Call.StaticCallee()) == "io.ReadFull") {
-						good = true
-					}
-				}
-			}
-			if !good {
-				okAll = false
-				fact = "the error returned at " + w.instrPos(ret) + " is " + describeVal(ret.Results[idx], nil) + ", not a read failure: some payload content is rejected"
-			}
-		}
-		r.add(rule, name+" · rejects nothing but a failed read", w.pos(fn.Pos()), okAll, fact)
-	}
-}
-
 func rulesC06(w *World, r *Report) {
 	w.ruleCarrierEscape(r, "C06.R1 no internal carrier escapes an entry point", "C06.R1b no carrier stored into a returned container")
 	for _, c := range []string{"int", "long", "double", "date", "bool"} {
